@@ -5,6 +5,7 @@
 //   "renderconc" (C17): N simulated caller threads render through ONE shared parsed tag cache and shared values under
 //                the seeded scheduler; outputs must equal fresh single renders, nothing shared may be written, no races.
 #include "common.hpp"
+#include <map>
 #include "channel.hpp"
 #include "tmplgen.hpp"
 #include "valueread.hpp"
@@ -199,8 +200,8 @@ struct RenderW {
         }
         pending.clear();
         if (has_long_exponent(text)) {
-            qsim::set_soft_budget(true);
-            qsim::probe("render.long-exponent-soft-budget");
+            qsim::set_stall_abandon(true);
+            qsim::probe("render.long-exponent");
         }
         ArenaText<C> buf(text);
         const C     *content = buf.ptr;
@@ -448,7 +449,7 @@ struct ConcW {
             values.push_back(v);
         }
         text.set(tmpl);
-        if (has_long_exponent(tmpl)) qsim::set_soft_budget(true);
+        if (has_long_exponent(tmpl)) qsim::set_stall_abandon(true);
         {
             LibCall lc;
             new (cache.p) Tags();
@@ -568,7 +569,27 @@ struct ConcW {
 // ------------------------------------------------------------------------------------------------
 // generation
 // ------------------------------------------------------------------------------------------------
+// twelve two-letter keys that share the low four bits of the library's hash: one chain in a table of up to 16 buckets
+static void fill_colliding_keys() {
+    if (!colliding_keys().empty()) return;
+    std::map<uint32_t, std::vector<std::string>> by;
+    for (char a = 'a'; a <= 'z'; a++)
+        for (char b = '0'; b <= '9'; b++) {
+            char     k[2] = {a, b};
+            uint32_t h    = (uint32_t)Qentem::StringUtils::Hash((const char *)k, (SizeT)2);
+            by[h & 0xFFu].push_back(std::string(k, 2));
+        }
+    const std::vector<std::string> *best = nullptr;
+    for (auto &kv : by)
+        if (best == nullptr || kv.second.size() > best->size()) best = &kv.second;
+    if (best != nullptr && best->size() >= 9) {
+        colliding_keys() = *best;
+        if (colliding_keys().size() > 14) colliding_keys().resize(14);
+    }
+}
+
 static void gen_values_and_template(Plan &plan, Rng &cfg, Rng &ops, bool &root_array, U32 &tmpl_out, int tier, bool conc) {
+    fill_colliding_keys();
     root_array = cfg.chance(1, 4);
     size_t nv  = 1 + (size_t)cfg.below(3);
     for (size_t i = 0; i < nv; i++) {
